@@ -1,0 +1,64 @@
+//go:build verif
+
+// Contracts for the verifier in /verif (govc). Comment-only.
+
+package callbacks
+
+// ---------------------------------------------------------------------------------------------------
+// inject.go, manager.go — callback managers (C10, C09)
+// ---------------------------------------------------------------------------------------------------
+
+//@ spec mgrOf(ctx context.Context) *manager = unbox(ctxValue(ctx, "CtxManagerKey"), "*manager")
+
+//@ func newManager
+//@   props C10 C09
+//@   ensures[none] len(handlers) + len(GlobalHandlers) == 0 ==> result0 == nil && !result1
+//@   ensures[some] len(handlers) + len(GlobalHandlers) > 0 ==> result1 && result0 != nil && fresh(result0) && result0.runInfo == runInfo && result0.handlers == handlers
+//@   ensures[global_copied] result1 ==> fresh(result0.globalHandlers) && len(result0.globalHandlers) == len(GlobalHandlers) && forall(i int :: 0 <= i && i < len(GlobalHandlers) ==> result0.globalHandlers[i] == GlobalHandlers[i])
+
+//@ func (*manager).withRunInfo
+//@   props C10
+//@   ensures[nil] m == nil ==> result == nil
+//@   ensures[copy] m != nil ==> fresh(result) && result.runInfo == runInfo && result.handlers == m.handlers && result.globalHandlers == m.globalHandlers
+
+//@ spec hasMgr(ctx context.Context) bool = is(ctxValue(ctx, "CtxManagerKey"), "*manager") && mgrOf(ctx) != nil
+
+//@ func managerFromCtx
+//@   props C10 C09
+//@   ensures[none] !hasMgr(ctx) ==> result0 == nil && !result1
+//@   ensures[copy] hasMgr(ctx) ==> result1 && result0 != nil && fresh(result0) && result0.handlers == mgrOf(ctx).handlers && result0.globalHandlers == mgrOf(ctx).globalHandlers && result0.runInfo == mgrOf(ctx).runInfo
+
+//@ func ctxWithManager
+//@   props C10 C09
+//@   ensures[set] fresh(result) && is(ctxValue(result, "CtxManagerKey"), "*manager") && mgrOf(result) == manager
+
+//@ func InitCallbacks
+//@   props C10 C09
+//@   ensures[mgr] len(handlers) + len(GlobalHandlers) > 0 ==> hasMgr(result) && fresh(mgrOf(result)) && mgrOf(result).handlers == handlers && mgrOf(result).runInfo == info && fresh(mgrOf(result).globalHandlers)
+//@   ensures[nomgr] len(handlers) + len(GlobalHandlers) == 0 ==> !hasMgr(result)
+//@   ensures[fresh_ctx] fresh(result)
+
+//@ func ReuseHandlers
+//@   props C10 C09
+//@   ensures[none] !hasMgr(ctx) ==> result == ctx
+//@   ensures[reuse] hasMgr(ctx) ==> hasMgr(result) && fresh(mgrOf(result)) && mgrOf(result).handlers == mgrOf(ctx).handlers && mgrOf(result).runInfo == info
+
+//@ func AppendHandlers
+//@   props C10 C09
+//@   ensures[content_len] hasMgr(ctx) && len(mgrOf(ctx).handlers) + len(handlers) > 0 ==> hasMgr(result) && len(mgrOf(result).handlers) == len(mgrOf(ctx).handlers) + len(handlers)
+//@   ensures[content_parent] hasMgr(ctx) && len(mgrOf(ctx).handlers) + len(handlers) > 0 ==> forall(i int :: 0 <= i && i < len(mgrOf(ctx).handlers) ==> mgrOf(result).handlers[i] == old(mgrOf(ctx).handlers[i]))
+//@   ensures[content_new] hasMgr(ctx) && len(mgrOf(ctx).handlers) + len(handlers) > 0 ==> forall(i int :: 0 <= i && i < len(handlers) ==> mgrOf(result).handlers[len(mgrOf(ctx).handlers) + i] == old(handlers[i]))
+//@   ensures[parent_untouched] hasMgr(ctx) ==> forall(i int :: 0 <= i && i < cap(mgrOf(ctx).handlers) ==> mem(mgrOf(ctx).handlers, i) == old(mem(mgrOf(ctx).handlers, i)))
+//@   ensures[no_alias] hasMgr(ctx) && hasMgr(result) && len(handlers) > 0 ==> arr(mgrOf(result).handlers) != arr(mgrOf(ctx).handlers)
+//@   ensures[info] hasMgr(result) ==> mgrOf(result).runInfo == info
+
+//@ func On
+//@   props C10 C09
+//@   requires handle != nil
+//@   ensures[none] !hasMgr(ctx) ==> result0 == ctx && result1 == inOut
+//@   ensures[parent_untouched] hasMgr(ctx) ==> forall(i int :: 0 <= i && i < cap(mgrOf(ctx).handlers) ==> mem(mgrOf(ctx).handlers, i) == old(mem(mgrOf(ctx).handlers, i)))
+//@   at call handle: assert[filtered_subset] forall(i int :: 0 <= i && i < len(hs) ==> exists(j int :: 0 <= j && j < len(mgr.handlers) && hs[i] == mgr.handlers[j]) || exists(j int :: 0 <= j && j < len(mgr.globalHandlers) && hs[i] == mgr.globalHandlers[j]))
+//@   loop 1:
+//@     modifies elems(hs)
+//@     invariant[hs_same] arr(hs) == arr(pre(hs)) && off(hs) == off(pre(hs)) && cap(hs) == cap(pre(hs)) && len(hs) <= $i
+//@     invariant[subset] forall(i int :: 0 <= i && i < len(hs) ==> exists(j int :: 0 <= j && j < $i && hs[i] == all[j]))
